@@ -104,6 +104,52 @@ def _unquote_tla(s):
     return json.loads(s)
 
 
+def _balance(line):
+    """<< >> nesting depth of a printed TLC value, ignoring string literals."""
+    d, i, n, instr = 0, 0, len(line), False
+    while i < n:
+        ch = line[i]
+        if instr:
+            if ch == "\\":
+                i += 1
+            elif ch == '"':
+                instr = False
+        elif ch == '"':
+            instr = True
+        elif line.startswith("<<", i):
+            d += 1
+            i += 1
+        elif line.startswith(">>", i):
+            d -= 1
+            i += 1
+        i += 1
+    return d
+
+
+def _join_prints(lines):
+    """TLC pretty-prints long PrintT values over several lines: re-join every value that starts with
+    <<" until its brackets balance."""
+    out, cur, depth = [], None, 0
+    for line in lines:
+        if cur is None:
+            if re.match(r'^<<\s*"', line):
+                line = re.sub(r'^<<\s*"', '<<"', line)
+                depth = _balance(line)
+                if depth > 0:
+                    cur = [line]
+                    continue
+            out.append(line)
+        else:
+            cur.append(line.strip())
+            depth += _balance(line)
+            if depth <= 0:
+                out.append(re.sub(r"\s+", " ", " ".join(cur)))
+                cur = None
+    if cur is not None:
+        out.append(" ".join(cur))
+    return out
+
+
 _cov_re = re.compile(r"^<(\w+) (line \d+, col \d+ to line \d+, col \d+ of module \w+)>: (\d+):(\d+)")
 
 
@@ -144,7 +190,7 @@ def run_tlc(module, cfg, workers=8, env=None, timeout=3600, simulate=None, heap=
     r.rc = p.returncode
     r.out = p.stdout
     r.wall = time.time() - t0
-    for line in p.stdout.splitlines():
+    for line in _join_prints(p.stdout.splitlines()):
         if line.startswith('<<"REPLAY", '):
             body = line[len('<<"REPLAY", '):-2]
             try:
@@ -177,6 +223,11 @@ def run_tlc(module, cfg, workers=8, env=None, timeout=3600, simulate=None, heap=
 def tlc_mc(module, cfg, workers=8, timeout=3600, heap="6g", env=None, must_take=None, check=None):
     """Model-check an MC config of the *intended* design.  A violation here is a tool error: the
     specification itself is wrong (never reported as a pass, never as a VIOLATION of the code)."""
+    if os.environ.get("VERIF_DEBUG_SKIP_MC") and check is not None:      # development aid only
+        log(f"[tlc] SKIPPED {module} {cfg} (VERIF_DEBUG_SKIP_MC)")
+        check.states += 1
+        check.transitions += 1
+        return None
     r = run_tlc(module, cfg, workers=workers, timeout=timeout, heap=heap, env=env)
     if not r.ok:
         sys.stdout.write(r.out[-5000:])
@@ -327,7 +378,7 @@ def validate_file(trace_module, cfg, path, known_ids, timeout=3600, heap="3g", e
     v.out = r.out
     v.states = r.distinct
     for line in r.prints:
-        m = re.match(r'^<<"MISMATCH", (\d+)(?:, (.*))?>>$', line)
+        m = re.match(r'^<<"MISMATCH", (\d+)(?:, (.*?))?\s*>>$', line)
         if m:
             v.mismatches.append((int(m.group(1)), m.group(2) or ""))
             continue
@@ -338,6 +389,12 @@ def validate_file(trace_module, cfg, path, known_ids, timeout=3600, heap="3g", e
         m = re.match(r'^<<"CONSUMED", (\d+)>>$', line)
         if m:
             v.consumed = int(m.group(1))
+    raw_mm = len(re.findall(r'^<<\s*"MISMATCH"', r.out, re.M))
+    raw_kf = len(re.findall(r'^<<\s*"KF"', r.out, re.M))
+    if raw_mm != len(v.mismatches) or raw_kf != len(v.kf):
+        sys.stdout.write(r.out[-2500:])
+        raise ToolError(f"could not parse every MISMATCH/KF line of TLC's output for {path} "
+                        f"({raw_mm}/{len(v.mismatches)} mismatches, {raw_kf}/{len(v.kf)} known-finding hits)")
     if r.rc != 0 or r.violation or v.consumed != n:
         sys.stdout.write(r.out[-2500:])
         raise ToolError(f"trace validation of {path} with {trace_module} did not run to the end "
@@ -450,10 +507,12 @@ class Check:
         with open(path, "w") as f:
             json.dump(replay_obj, f, indent=1, ensure_ascii=True)
         self.violations.append(path)
-        if len(self.violations) <= 20:
+        if len(self.violations) <= 8:
             log(f"VIOLATION property={self.prop} replay={path}")
             if what:
-                log(f"  detail: {what[:600]}")
+                log(f"  detail: {what[:400]}")
+        elif len(self.violations) == 9:
+            log("  (further VIOLATION lines suppressed; every violation has its replay file)")
         return path
 
     def known_hit(self, fid, n=1):
@@ -467,7 +526,8 @@ class Check:
         self.transitions += out["events"]
         bad_cases = {}
         for ci, off, detail in out["mismatch"]:
-            bad_cases.setdefault(ci, (off, detail))
+            if ci not in bad_cases or off < bad_cases[ci][0]:
+                bad_cases[ci] = (off, detail)
         self.traces += len(cases) - len(bad_cases)
         for fid, ci, off in out["kf"]:
             self.known_hit(fid)
